@@ -29,10 +29,14 @@ def moveEntryL (trig : RPath) (inj : St → St) : Nat → St → RPath → Entry
     parent is the directory being renamed, which exists at that moment) -/
 def injectLate (late : RPath) (e : Entry) (s : St) : St := { s with ents := put s.ents late e }
 
-/-- AtomicRenameEntry src → dst while `late` is created right after the store delete of `trig` -/
-def renameLateEntry (s : St) (src dst trig late : RPath) (le : Entry) : Mv :=
+/-- AtomicRenameEntry src → dst while `late` is created right after the store delete of `trig`; the Boolean tells
+    whether that delete happened, i.e. whether the second client's create was carried out at all (the hook leaves a
+    mark under the KV key 0, which nothing else uses — link identities are 1, 2, … — and which is removed again) -/
+def renameLateEntry (s : St) (src dst trig late : RPath) (le : Entry) : Mv × Bool :=
   match find s src with
-  | none => (s, .err, [])
-  | some e => moveEntryL trig (injectLate late le) renameFuel s src e dst
+  | none => ((s, .err, []), false)
+  | some e =>
+    match moveEntryL trig (fun t => kvPut (injectLate late le t) 0 le) renameFuel s src e dst with
+    | (s', r, q) => ((kvDel s' 0, r, q), (kvGet s' 0).isSome)
 
 end SwV.Model.C18
